@@ -66,6 +66,25 @@ package cmap
 //@   at call RLock#0 label L
 //@   at before call RUnlock#0 label U
 
+//@ func (*mapimpl).Range
+//@   tags C14
+//@   requires m != nil
+//@   at call RLock#0 label L
+//@   at before call funcvalue assert [C14.map.range.underlock] heldr(m.lock)
+//@   at before call funcvalue assert [C14.map.range.pair] haskey(m.m, arg0) && arg1 == m.m[arg0]
+//@   loop 0 invariant heldr(m.lock) && m.m == at(L, m.m) && (forall j tp :: haskey(m.m, j) == at(L, haskey(m.m, j)) && m.m[j] == at(L, m.m[j]))
+//@   at call funcvalue assume m.m == at(L, m.m) && (forall j tp :: haskey(m.m, j) == at(L, haskey(m.m, j)) && m.m[j] == at(L, m.m[j]))
+
+//@ func (*mapimpl).Keys
+//@   tags C14
+//@   requires m != nil
+//@   ensures [C14.map.keys.fresh] fresh(result) || len(result) == 0
+//@   ensures [C14.map.keys.members] forall i :: 0 <= i && i < len(result) ==> haskey(m.m, result[i])
+//@   ensures [C14.map.keys.pure] m.m == at(L, m.m) && (forall j tp :: haskey(m.m, j) == at(L, haskey(m.m, j)) && m.m[j] == at(L, m.m[j]))
+//@   loop 0 invariant heldw(m.lock) && m.m == at(L, m.m) && fresh(keys) && (forall i :: 0 <= i && i < len(keys) ==> haskey(m.m, keys[i]))
+//@   at call Lock#0 label L
+//@   at before call Unlock#0 label U
+
 // ---- AtomicValue / atomicMap ----
 // tpadd is addition on the integer type parameter T (width unknown, so it is the model's wrapping addition).
 //@ pure func tpadd(a int, b int) int
